@@ -2,7 +2,7 @@
 from ._store import run_store
 
 THEOREMS = ['findEvents_sound', 'findEvents_nip01', 'redacted_sound', 'scrape_gate', 'findEvents_total', 'findEvents_exact', 'plan_independent', 'newest_under_limit', 'answer_characterised',
-            'index_key_order', 'index_range_bounds', 'tag_index_range_bounds', 'time_index_scan', 'author_index_scan', 'author_kind_index_scan', 'tag_index_scan', 'author_tag_index_scan', 'kind_tag_index_scan', 'tag_rows_are_dumped_keys', 'index_padding_from_source', 'keys_from_source', 'iter_bounds_from_source']
+            'index_key_order', 'index_range_bounds', 'tag_index_range_bounds', 'time_index_scan', 'author_index_scan', 'author_kind_index_scan', 'tag_index_scan', 'author_tag_index_scan', 'kind_tag_index_scan', 'tag_rows_are_dumped_keys', 'index_padding_from_source', 'keys_from_source', 'iter_bounds_from_source', 'scrape_gate_from_source']
 
 
 def run():
